@@ -132,6 +132,41 @@ dot segment is refused (C03), so no request path carries them. -/
 example : lookupVars [.var [120]] [47] = .noRoute := by decide
 example : lookupVars [.var [120]] [47, 37, 50, 101] = .badPath := by decide
 
+/-! ### Structs with a `#[serde(flatten)]`-ed part -/
+
+/-- A string, char or enum member of a flattened part is read from the very
+string that was sent: the buffered value is never re-interpreted (as a number,
+a boolean, …) on its way to the handler. -/
+theorem flat_member_from_string (t : STy) (s : Bytes)
+    (ht : t = .string ∨ t = .char ∨ ∃ vs, t = .enum vs) :
+    deContentScalar t s = deScalar t s := by
+  rcases ht with h | h | ⟨vs, h⟩ <;> subst h <;> simp [deContentScalar, deScalar]
+
+/-- In particular a string member is delivered byte for byte, whatever it looks like
+(`7`, `007`, `3.14`, `true`, …). -/
+theorem flat_string_member (s : Bytes) : deContentField (.scalar .string) s = .ok (.scalar (.str s)) := rfl
+
+/-- Non-vacuity / witness: `struct { id: u32, #[flatten] { name: String, kind: Color } }` fed
+`id=7, kind=Red, name=007` yields the same value as the inline struct. -/
+example :
+    let outer : List (Bytes × FTy) := [([105, 100], .scalar (.uint 32))]
+    let inner : List (Bytes × FTy) := [([110], .scalar .string), ([107], .scalar (.enum [[82]]))]
+    let vars : VarSet := [([105, 100], .str [55]), ([107], .str [82]), ([110], .str [48, 48, 55])]
+    mapDeFlat outer inner vars = mapDe (.struct (outer ++ inner)) vars ∧
+      mapDeFlat outer inner vars = .ok [([105, 100], .scalar (.nat 7)), ([110], .scalar (.str [48, 48, 55])),
+        ([107], .scalar (.variant [82]))] := by decide
+
+/-- **Finding K9** (negation witness): a numeric member of a flattened part cannot be
+filled - `struct { s: String, #[flatten] { n: u16 } }` fed `n=5, s=x` is refused although
+the inline struct accepts it and the client encoded a value of the declared type. -/
+theorem flat_numeric_member_refused :
+    let outer : List (Bytes × FTy) := [([115], .scalar .string)]
+    let inner : List (Bytes × FTy) := [([110], .scalar (.uint 16))]
+    let vars : VarSet := [([110], .str [53]), ([115], .str [120])]
+    mapDeFlat outer inner vars = .error .shape ∧
+      mapDe (.struct (outer ++ inner)) vars = .ok [([115], .scalar (.str [120])), ([110], .scalar (.nat 5))] := by
+  decide
+
 /-! ### Query strings -/
 
 /-- **Every legal spelling** of a list of key/value byte strings — each byte raw
